@@ -1,3 +1,4 @@
+\* header computation: every Cors builder chain of <= 4 calls x 7 handler kinds
 CONSTANTS
   Pats = {"/a"}
   HKinds = {"plain", "ownO", "ownM", "ownH", "ownAll", "cred", "dupO"}
